@@ -152,9 +152,11 @@ def run_model(pid, calls, timeout=1200):
         return []
     driver = os.path.join(VERIF, "build", pid, "driver")
     text = "\n".join(sexp.dumps([e, c]) for e, c in calls) + "\n"
-    nshards = min(8, max(1, len(calls) // 20))
+    nshards = min(16 if len(calls) > 2000 else 8, max(1, len(calls) // 20))
     lines = text.splitlines()
     shards = [lines[i::nshards] for i in range(nshards)]
+    # a loaded machine must not turn into an alarm: the limit grows with the shard
+    timeout = max(timeout, 600 + 6 * max(len(sh_) for sh_ in shards))
     procs = []
     for sh_ in shards:
         p = subprocess.Popen([driver], stdin=subprocess.PIPE, stdout=subprocess.PIPE, text=True,
